@@ -188,8 +188,11 @@ def mean_checks(ctx, tier, rng):
         call = target
         for k in axes:
             call = "mean(%s,%d)" % (call, k) if not (k == 0 and rng.random() < 0.15) else "mean(%s)" % call
-        beside = rng.choice(["", "w,", "w,"]) if target != "a" else rng.choice(["", "w,"])
-        q = beside + call + rng.choice(["", "", ",w"] if not beside else [""])
+        # an ordinary projection beside the call, with and without a hyperslab of its own (it must be served as without
+        # the call: the middleware hands the ordinary items to the handler)
+        wsel, wvals = rng.choice([("w", [0, 1, 2]), ("w", [0, 1, 2]), ("w[1:2]", [1, 2]), ("w[0:2:2]", [0, 2]), ("w[2]", [2])])
+        beside = rng.choice(["", wsel + ",", wsel + ","]) if target != "a" else rng.choice(["", wsel + ","])
+        q = beside + call + rng.choice(["", "", "," + wsel] if not beside else [""])
         res = G.run_request(app, "/d.dods", q)
         case = {"kind": "mean", "info": info, "target": target, "axes": axes, "query": q}
         # expectation from the source: exact integer sums, common denominator = product of the removed axis lengths
@@ -240,7 +243,12 @@ def mean_checks(ctx, tier, rng):
                             ddstext[:300], {"shape": shp, "dims": dims, "maps": [d for d, _ in maps]}, size=len(q) + sum(info["shape"]))
             continue
         # values: skip what stands before the result (w), then the result, then maps
-        pre = 3 if (q.startswith("w,") or q.endswith(",w")) else 0  # ordinary projections come first, function results are appended
+        has_w = q.startswith(wsel + ",") or q.endswith("," + wsel)
+        pre = len(wvals) if has_w else 0  # ordinary projections come first, function results are appended
+        if has_w and [float(x) for x in vals[:pre]] != [float(x) for x in wvals]:
+            ctx.oracle_fail("an ordinary projection beside a function call is not served as without the call", case,
+                            vals[:pre + 2], wvals, size=len(q) + sum(info["shape"]))
+            continue
         nres = int(np.prod(shp)) if shp else 1
         got = vals[pre:pre + nres]
         exact = [Fraction(s_, den) for s_ in want_sums]
@@ -258,7 +266,7 @@ def mean_checks(ctx, tier, rng):
                 ctx.oracle_fail("mean on a grid: the remaining maps do not carry the source maps' values", case, got_maps[:20],
                                 [x for _, mv in maps for x in mv][:20], size=len(q) + sum(info["shape"]))
                 continue
-        ctx.count(("mean", repr(info), q), True, tag="mean|%s|rank%d|depth%d%s" % (target, rank, depth, "|beside" if "w" in q.replace(call, "") else ""),
+        ctx.count(("mean", repr(info), q), True, tag="mean|%s|rank%d|depth%d%s" % (target, rank, depth, ("|beside-sliced" if "[" in wsel else "|beside") if has_w else ""),
                   sample={"query": q, "shape": info["shape"]})
         # correspondence with the model: sums over the common denominator
         sums = [int(round(Fraction(float(g_)) * den)) for g_ in got]
@@ -815,7 +823,15 @@ def replay(payload):
     for k in c["axes"]:
         src = src.mean(axis=k)
     want = [float(x) for x in np.asarray(src).reshape(-1)]
-    pre = 3 if (q.startswith("w,") or q.endswith(",w")) else 0
+    import re as _re
+    mw = _re.match(r"(w(?:\[[0-9:]*\])?),", q) or _re.search(r",(w(?:\[[0-9:]*\])?)$", q)
+    wvals = []
+    if mw:
+        wvals = {"w": [0, 1, 2], "w[1:2]": [1, 2], "w[0:2:2]": [0, 2], "w[2]": [2]}.get(mw.group(1), [0, 1, 2])
+    pre = len(wvals)
+    if [float(x) for x in vals[:pre]] != [float(x) for x in wvals]:
+        print("ordinary projection beside the call: observed", vals[:pre + 2], "expected", wvals)
+        return False
     got = [float(x) for x in vals[pre:pre + len(want)]]
     print("observed", got[:12], "expected", want[:12])
     import re
